@@ -438,7 +438,14 @@ pub fn run_case(c: &Case, root: &Path, cnt: &Counters, sample: usize, repair_eve
                 }
             }
             // records appended after opening (a clean-EOF or repaired segment) are read back
-            let appended: Vec<Vec<u8>> = (0..2).map(|k| record(c.seed ^ 0x77, 1000 + k, if k == 0 { 5 } else { 700 })).collect();
+            // three shapes of the appending session: two small records, one record longer than
+            // a block, enough records to cross the next block boundary
+            let appended: Vec<Vec<u8>> = match n % 3 {
+                0 => (0..2).map(|k| record(c.seed ^ 0x77, 1000 + k, if k == 0 { 5 } else { 700 })).collect(),
+                1 => vec![record(c.seed ^ 0x77, 1000, 5), record(c.seed ^ 0x77, 1001, 40_000)],
+                _ => (0..50).map(|k| record(c.seed ^ 0x77, 1000 + k, 700)).collect(),
+            };
+            let na = appended.len();
             let ar = std::panic::catch_unwind(|| -> Result<(), String> {
                 let mut w = VerifWal::open(&work, 1 << 40, c.lz4).map_err(|e| format!("open: {e}"))?;
                 for a in &appended {
@@ -455,7 +462,7 @@ pub fn run_case(c: &Case, root: &Path, cnt: &Counters, sample: usize, repair_eve
                 Ok(Err(e)) => {
                     // a directory whose tail is damaged but not yet repaired may refuse appends; the
                     // store repairs before it appends, so only the repaired / clean-EOF cases count
-                    if matches!(end, VerifWalEnd::Corruption { .. }) || end == VerifWalEnd::Eof && ends.contains(&(bytes.len() as u64)) {
+                    if !matches!(end, VerifWalEnd::Other(_)) {
                         problems.push(Problem { class: "append_after_failed", what: format!("{what}: open + append failed: {e}"), alt: Some(alt) });
                     }
                     continue;
@@ -473,12 +480,14 @@ pub fn run_case(c: &Case, root: &Path, cnt: &Counters, sample: usize, repair_eve
                     last_end = e;
                 }
             }
-            let tail_ok = all.len() >= 2 && all[all.len() - 2..] == appended[..];
-            let clean_tail = matches!(end, VerifWalEnd::Corruption { .. }) || ends.contains(&(bytes.len() as u64)) || bytes.len() as u64 == file_len && matches!(alt, Alt::Byte(_) | Alt::Bit(..));
-            if clean_tail && (!tail_ok || last_end != VerifWalEnd::Eof || all.len() != prefix_before + 2) {
+            let tail_ok = all.len() >= na && all[all.len() - na..] == appended[..];
+            // whatever the segment looked like (clean end, torn tail read as end-of-log, or
+            // repaired), a session that opened it and appended must find its records again
+            let clean_tail = !matches!(end, VerifWalEnd::Other(_));
+            if clean_tail && (!tail_ok || last_end != VerifWalEnd::Eof || all.len() != prefix_before + na) {
                 problems.push(Problem {
                     class: "appended_after_lost",
-                    what: format!("{what}: {} records readable, then 2 records appended in a new session; reading now yields {} records, ends with {:?}, appended records at the tail: {}", prefix_before, all.len(), last_end, tail_ok),
+                    what: format!("{what}: {} records readable, then {} records appended in a new session; reading now yields {} records, ends with {:?}, appended records at the tail: {}", prefix_before, na, all.len(), last_end, tail_ok),
                     alt: Some(alt),
                 });
             }
